@@ -50,6 +50,9 @@ pub fn types() -> Vec<MType> {
         // counted repetition, an expression that accepts the empty string (used with a sibling rule diverging inside them)
         t("four-digits", "[0-9]{4}", &["2024", "0007"], &["24", "20245"]),
         t("digits-star", "[0-9]*", &["", "42"], &["x"]),
+        // accepted values that READ like a reference to another marker of the templates (`@a`, `@x`): a captured string is
+        // data, it is substituted and never read again as a template (not used for host markers: `@` ends the user-info part)
+        t("at-sign", "[a-z@]+", &["@a", "@x"], &["", "1"]),
     ]
 }
 
@@ -213,12 +216,27 @@ const TEXT_VALUE: &str = "[@a@ab]";
 const HTML_VALUE: &str = "<i>@a</i>";
 
 fn substitute(template: &str, vars: &[(String, String)]) -> String {
+    // ONE pass over the template: a reference is an occurrence of `@name` in the template itself (longest name first);
+    // text brought in by a substituted value is never read again, whatever it looks like (`@a` captured for `ab`)
     let mut v: Vec<&(String, String)> = vars.iter().collect();
     v.sort_by(|a, b| b.0.len().cmp(&a.0.len()));
-    let mut out = template.to_string();
-    for (n, val) in v {
-        out = out.replace(&format!("@{n}"), val);
+    let mut out = String::new();
+    let mut rest = template;
+    while let Some(pos) = rest.find('@') {
+        out.push_str(&rest[..pos]);
+        let after = &rest[pos + 1..];
+        match v.iter().find(|(n, _)| after.starts_with(n.as_str())) {
+            Some((n, val)) => {
+                out.push_str(val);
+                rest = &after[n.len()..];
+            }
+            None => {
+                out.push('@');
+                rest = after;
+            }
+        }
     }
+    out.push_str(rest);
     out
 }
 
@@ -234,7 +252,9 @@ pub fn build(case: &Case) -> (Rule, Request, RouterConfig, bool, Vec<(String, St
     let mut host = t.host.map(|h| h.to_string());
     let mut header_val = t.header.map(|(_, v)| v.to_string());
     let mut vars: Vec<(String, String)> = Vec::new();
-    // instantiate longest names first so that @ab is not clobbered by @a
+    // raw values per location; the path / host / header value are instantiated in ONE pass below (longest name first, a value is
+    // never read again: `ab` := "@a" stays "@a")
+    let mut raw: Vec<(char, String, String)> = Vec::new();
     let mut order: Vec<usize> = (0..case.slots.len()).collect();
     order.sort_by(|a, b| case.slots[*b].name.len().cmp(&case.slots[*a].name.len()));
     for i in order {
@@ -247,18 +267,17 @@ pub fn build(case: &Case) -> (Rule, Request, RouterConfig, bool, Vec<(String, St
         // header patterns are unanchored by design: only "accepted" is asserted there, rejected values are not used
         all_accepted &= ok;
         markers.push(json!({"name": s.name, "regex": types[s.mtype].expr, "transformers": s.transformers.iter().map(|t| t.json()).collect::<Vec<_>>()}));
-        let needle = format!("@{}", s.name);
-        match t.markers[i].1 {
-            'p' => path = path.replace(&needle, &val),
-            'h' => host = host.map(|h| h.replace(&needle, &val)),
-            _ => header_val = header_val.map(|h| h.replace(&needle, &val)),
-        }
+        raw.push((t.markers[i].1, s.name.clone(), val.clone()));
         let mut tv = val.clone();
         for tr in &s.transformers {
             tv = tr.apply(&tv);
         }
         vars.push((s.name.clone(), tv));
     }
+    let at = |loc: char| -> Vec<(String, String)> { raw.iter().filter(|(l, _, _)| (*l == loc) || (loc == 'x' && *l != 'p' && *l != 'h')).map(|(_, n, v)| (n.clone(), v.clone())).collect() };
+    path = substitute(&path, &at('p'));
+    host = host.map(|h| substitute(&h, &at('h')));
+    header_val = header_val.map(|h| substitute(&h, &at('x')));
     let headers_src: Value = match t.header {
         None => Value::Null,
         Some((n, v)) => json!([{"type": "match_regex", "name": n, "value": v}]),
@@ -486,6 +505,9 @@ pub fn cases(tier: Tier) -> Vec<Case> {
             // two markers whose expressions define the SAME named group give one pattern with a duplicate group name, which is
             // not a regex: outside the domain (the statement speaks of expressions that accept strings)
             if assign.iter().filter(|k| **k == named).count() > 1 {
+                continue;
+            }
+            if (0..n).any(|i| t.markers[i].1 == 'h' && types[assign[i]].name == "at-sign") {
                 continue;
             }
             // values: all accepted combinations; rejected one slot at a time (only in anchored positions)
